@@ -700,6 +700,10 @@ def verify_close(ex, contract, timeout_ms=30000):
             ob("security:flat-child-stays-flat", Implies(And(sec, is_zero(pos)), is_zero(F.get(c, "_position"))))
             # a sub-strategy child: its own children are liquidated first (one flatten() on the child, iff it has children); what is then withdrawn
             # is the child's value AFTER that liquidation has been refreshed - read through the refreshing accessor, not a value remembered from before
+            # under a fixed-income parent a sub-strategy is liquidated by flattening its children and nothing else is traded (it raised AttributeError
+            # before fix F26: a strategy has no position)
+            fi_sub = And(has, Not(issec), fi_strat)
+            ob("fi-strategy-child:flattened-iff-it-has-children-and-nothing-else-is-called", Implies(fi_sub, And(Not(E.list_len(c, "_childrenv").eq(0)) == (len([x_ for x_ in calls if x_[0].endswith(".flatten")]) == 1), len([x_ for x_ in calls if not x_[0].endswith(".flatten")]) == 0)), PC + ("C17",))
             strat = And(has, Not(issec), Not(fi_strat))
             kids = Not(E.list_len(c, "_childrenv").eq(0))
             flats = [x_ for x_ in calls if x_[0].endswith(".flatten")]
